@@ -592,7 +592,7 @@ static void p6_run(uint64_t idx, vh_rng_t * rng) {
 }
 
 int main(int argc, char ** argv) {
-    vh_require("array.window_at_element_offset");
+    vh_decoy_enable(5); vh_require("decoy.messages_run_on_a_second_context"); vh_require("array.window_at_element_offset");
     static const vh_phase_t phases[] = {
         { "arrays_every_type_format_length", p0_count, p0_run },
         { "arrays_random", p1_count, p1_run },
